@@ -214,6 +214,37 @@ def f13_ambient(ctx, repo):
     ctx.ob("F13b", tn.where, "SOURCE_DATE_EPOCH read dominates time.time(); early return when set", ok)
 
 
+
+def tz_independence(ctx, repo):
+    """time-zone independence of the head timestamp codecs"""
+    ctx.rule("F13z", "timestamp <-> string conversion does not depend on the process time zone: formatting goes through time.gmtime, parsing makes the datetime UTC-aware (tzinfo=timezone.utc) or uses calendar.timegm before taking .timestamp(); localtime/mktime are confined to asctime's no-argument default", floor=3)
+    mod = repo.mod("misc/timeTools.py")
+    for q, f in sorted(mod.funcs.items()):
+        for c in calls_in(f.node):
+            nm = call_name(c) or ""
+            if nm in ("time.localtime", "time.mktime", "time.ctime", "time.asctime", "datetime.now", "datetime.today", "datetime.fromtimestamp", "datetime.utcfromtimestamp") or nm.endswith(".astimezone"):
+                ok = q == "asctime" and nm == "time.localtime" and any(norm(t) == "t is None" for t, pol in guard_conditions(c) if pol)
+                ctx.ob("F13z", f.where, f"{nm}() call", ok, "" if ok else "local-time API in a timestamp codec")
+            if isinstance(c.func, ast.Attribute) and c.func.attr == "timestamp" and not c.args:
+                recv = c.func.value
+                aware = False
+                if isinstance(recv, ast.Name):
+                    stores = [st for st in walk_no_nested(f.node) if isinstance(st, ast.Assign) and any(isinstance(t, ast.Name) and t.id == recv.id for t in st.targets) and st.lineno < c.lineno]
+                    if stores:
+                        last = stores[-1].value
+                        aware = any(isinstance(k, ast.keyword) and k.arg in ("tzinfo", "tz") and norm(k.value) in ("timezone.utc", "datetime.timezone.utc", "UTC") for k in ast.walk(last))
+                else:
+                    aware = any(isinstance(k, ast.keyword) and k.arg in ("tzinfo", "tz") and norm(k.value) in ("timezone.utc", "datetime.timezone.utc", "UTC") for k in ast.walk(recv))
+                ctx.ob("F13z", f.where, f"{norm(c)} on a UTC-aware datetime", aware, "" if aware else "naive datetime.timestamp() interprets the fields in the process-local time zone")
+    ts = mod.func("timestampToString")
+    nms = [call_name(c) for c in calls_in(ts.node)]
+    ok = "time.gmtime" in nms and "time.localtime" not in nms
+    ctx.ob("F13z", ts.where, f"formats through {[n for n in nms if n and n.startswith('time.')]}", ok)
+    fs = mod.func("timestampFromString")
+    has = any((isinstance(c.func, ast.Attribute) and c.func.attr == "timestamp") or call_name(c) == "calendar.timegm" for c in calls_in(fs.node))
+    ctx.ob("F13z", fs.where, "parses through an aware .timestamp() or calendar.timegm", has)
+
+
 # F11 -----------------------------------------------------------------------
 
 PURITY_AUDIT = {
@@ -447,4 +478,4 @@ def audit_discharge(ctx, repo):
     ctx.ob("F12d", tc.where, "finally: font.recalcTimestamp = <saved>", bool(fin))
 
 
-ALL = [f12_set_order, audit_discharge, f13_ambient, f11_compile_purity, lazy_independence, interning_order]
+ALL = [f12_set_order, audit_discharge, f13_ambient, tz_independence, f11_compile_purity, lazy_independence, interning_order]
